@@ -70,9 +70,12 @@ PROPS = {
             H("c08_array_empty", timeout=900, rules=REC_RULES + DROP_RULES),
             H("c08_array_short_elems2", timeout=1500, rules=REC_RULES + DROP_RULES),
             H("c08_array_short_elems3", timeout=1500, rules=REC_RULES + DROP_RULES),
+            H("c08_simple_0", timeout=600, rules=REC_RULES + DROP_RULES),
+            H("c08_integer_c_neg", timeout=600, rules=REC_RULES + DROP_RULES),
+            H("c08_integer_c_pos", timeout=600, rules=REC_RULES + DROP_RULES),
         ],
         bounds={
-            "frames": "BulkString of 0,2,4 arbitrary SYMBOLIC bytes (CR, LF, NUL included); Null; arrays: [bulk(1 symbolic byte), bulk(2 symbolic bytes)] (the shape of every request), [:7, $-1, +q], [], [+, :7], [+, -, :7] (elements of minimal length)",
+            "frames": "BulkString of 0,2,4 arbitrary SYMBOLIC bytes (CR, LF, NUL included); Null; the empty simple string; the integers :-7 and :42 (concrete digits); arrays: [bulk(1 symbolic byte), bulk(2 symbolic bytes)] (the shape of every request), [:7, $-1, +q], [], [+, :7], [+, -, :7] (elements of minimal length)",
             "stream": "(1a) the encoding alone at the end of the buffer and (1b) followed by 3 SYMBOLIC bytes: check accepts exactly the encoding's length and parse returns the frame at that position; (2) every strict prefix of >= 1 byte of a non-array frame is Incomplete (cut points enumerated in the harness; the empty prefix is c07_small_readers)",
             "outside": "simple strings, errors and integers with symbolic contents at whole-function level (c08_simple_*, c08_integer_* are written but do not finish in 10 min: error paths of line/number readers send niche-encoded Results through `?`, DESIGN.md 0.2/7) - their readers are decided at leaf level under C07 (get_line, get_integer exactness); prefixes of arrays; the encoder (Connection::write_frame: async/tokio); Connection::read_frame's loop and its EOF distinction; longer payloads; nested arrays",
         },
@@ -123,7 +126,7 @@ PROPS.update({
                 bounds={"shapes": SHAPES_NOTE + "; every shape ends with a reopen through the real rebuild_storage (scan path and hint path) and re-reads both keys", "outside": "two-digit file ids and foreign directory entries (name parsing is executed on single-digit ids only)"},
                 assumptions=STORE_ASSUME),
     "C05": dict(crate="store", title="Compaction never changes what any key reads, now or after a restart",
-                harnesses=_shapes("c01", [2, 3, 4, 5, 6, 9], tier_of=lambda i: "quick" if i in (3, 6, 9) else "thorough", covers={2: ["the merge wrote a hint entry"], 6: ["the tombstone's file was merged"], 9: ["the merge wrote a hint entry"]}),
+                harnesses=_shapes("c01", [2, 3, 4, 5, 6, 9], tier_of=lambda i: "quick" if i in (3, 4, 6, 9) else "thorough", covers={2: ["the merge wrote a hint entry"], 6: ["the tombstone's file was merged"], 9: ["the merge wrote a hint entry"]}),
                 bounds={"shapes": SHAPES_NOTE + "; merges selected by: everything (S2, S4), fragmentation > 0.4 (S3), dead bytes > 0 (S5), followed by reads and by a reopen", "outside": "thresholds are concrete per shape (a symbolic threshold makes the selected set symbolic and the run intractable - measured)"},
                 assumptions=STORE_ASSUME),
     "C12": dict(crate="store", title="Hint files are only an accelerator: recovery with or without them agrees",
@@ -134,16 +137,18 @@ PROPS.update({
                            H("c12_shape_4", tier="thorough", timeout=2400, mem_gb=28, rules=STORE_RULES, covers=["a non-empty hint file existed"])],
                 bounds={"shapes": SHAPES_NOTE + "; after the shape the index is rebuilt twice by the real rebuild_storage, as is and with every *.hint unlinked, and both pool keys are resolved through both; c12_direct_*: after every step every hint entry is checked against the data file of its id (shape 4: a merge rolling over into several output files)", "outside": "as C01"},
                 assumptions=STORE_ASSUME),
-    "C13": dict(crate="store", title="Compaction actually reclaims space and never grows the store (REDUCED: a merge never increases the total data size)",
-                harnesses=_shapes("c14", [2, 3, 4, 5, 9], tier_of=lambda i: "quick" if i in (4, 9) else "thorough"),
-                bounds={"shapes": SHAPES_NOTE + "; total length of the linked *.data inodes compared before/after every real merge", "outside": "the 'exactly as large as a fresh store' and idempotence clauses are not decided"},
+    "C13": dict(crate="store", title="Compaction actually reclaims space and never grows the store",
+                harnesses=_shapes("c14", [2, 3, 4, 5, 9], tier_of=lambda i: "quick" if i in (4, 9) else "thorough")
+                + [H("c13_partial", timeout=1500, rules=STORE_RULES, covers=["the older file was merged, the newer one left alone"]), H("c13_twice", timeout=1500, rules=STORE_RULES)],
+                bounds={"shapes": SHAPES_NOTE + "; S10 (c13_partial): an older tombstone-only file (eligible by dead bytes) and a newer clean file (not eligible): afterwards the store holds exactly the one live record; S11 (c13_twice): put a, put b, del a, merge of everything, the same merge again: total size and number of non-empty data files unchanged. Total length of the linked *.data inodes compared before/after every real merge (never grows); after every merge with thresholds that make every file eligible the total equals (number of live keys) x (encoded size of a value record)",
+                        "outside": "idempotence is decided on sizes and file counts, not on file contents; keys/values of one byte, so 'as large as a fresh store' is a count of records"},
                 assumptions=STORE_ASSUME),
     "C14": dict(crate="store", title="Data files are append-only and immutable, with ids that only grow",
                 harnesses=_shapes("c14", [1, 2, 3, 4, 5, 9], tier_of=lambda i: "quick" if i in (1, 4, 9) else "thorough"),
                 bounds={"shapes": SHAPES_NOTE + "; the monitor inside the model file system is asserted after every step: exclusive create + append by the creator only, no rename/set_len/truncate/open-for-write, ids per kind strictly above every earlier id, no data file beyond max_file_size by more than one entry", "outside": "bytes-never-change is enforced by construction of the model (appends only)"},
                 assumptions=STORE_ASSUME),
     "C19": dict(crate="store", title="Per-file live/dead accounting always matches the files' real contents",
-                harnesses=_shapes("c19", [1, 2, 3, 4, 5, 6, 8, 9], tier_of=lambda i: "quick" if i in (1, 3, 8, 9) else "thorough"),
+                harnesses=_shapes("c19", [1, 2, 3, 4, 5, 6, 8, 9], tier_of=lambda i: "quick" if i in (1, 3, 4, 8, 9) else "thorough"),
                 bounds={"shapes": SHAPES_NOTE + "; after every step the real LogStatistics of every file are compared with ground truth computed by the harness from the file bytes and the real index; counter arithmetic is overflow-checked by Kani", "outside": "as C01"},
                 assumptions=STORE_ASSUME),
     "C03": dict(crate="store", title="A process crash at any instant loses no acknowledged write and corrupts nothing",
@@ -151,11 +156,14 @@ PROPS.update({
                 bounds={"shapes": "A: two values on disk; open, del a, merge of everything, put b. B: empty directory, rollover on every write; put a, put b, del a. C: two values on disk, merge rolling over into several outputs. D: value in an older file, its tombstone in a newer one, merge of both. One harness instance per CONCRETE kill point k (the directory is snapshotted before file-system call number k); thorough spans every call of the run, quick a subset inside the merge / rollover windows; SYMBOLIC: every value byte. After the run the directory as of the kill is installed and the real rebuild_storage is run on it", "outside": "a second kill during the recovery after the first; longer workloads"},
                 assumptions=STORE_ASSUME + ["process-kill failure model: the page cache survives, the directory is exactly the effect of the prefix of calls"]),
     "C09": dict(crate="store", title="With sync=always an acknowledged write survives power loss, merges included",
-                harnesses=_kills("c09_b", range(2, 14), quick=(5, 7)) + _kills("c09_c", range(6, 31, 2), quick=(12, 16)) + _kills("c09_a", range(10, 33, 2), quick=(18, 22)),
+                harnesses=_kills("c09_b", range(2, 14), quick=(5, 7)) + _kills("c09_c", range(6, 31), quick=(12, 16)) + _kills("c09_a", range(10, 33), quick=(18, 22)),
                 bounds={"shapes": "as C03 with sync=always; additionally SYMBOLIC per file: the surviving length, anywhere between the length at its last completed fsync and its written length; creations and removals issued persist", "outside": "directory-entry durability (the property's failure model makes creations/removals persistent)"},
                 assumptions=STORE_ASSUME),
     "C20": dict(crate="store", title="A failed disk operation is reported and leaves the store consistent",
-                harnesses=[H("c20_m0_k00", timeout=900, rules=STORE_RULES), H("c20_m0_k01", timeout=900, rules=STORE_RULES), H("c20_m0w_k00", timeout=900, rules=STORE_RULES)]
+                harnesses=[H("c20_m0_k00", timeout=900, rules=STORE_RULES), H("c20_m0_k01", timeout=900, rules=STORE_RULES), H("c20_m0w_k00", timeout=900, rules=STORE_RULES),
+                           H("c20_m5_k01", timeout=1200, rules=STORE_RULES), H("c20_m5_k00", tier="thorough", timeout=1200, rules=STORE_RULES), H("c20_m5w_k00", tier="thorough", timeout=1200, rules=STORE_RULES)]
+                + [H("c20_m3_k%02d" % k, tier="thorough", timeout=1800, mem_gb=20, rules=STORE_RULES) for k in range(0, 10)]
+                + [H("c20_m4_k%02d" % k, tier="thorough", timeout=1800, mem_gb=20, rules=STORE_RULES) for k in range(0, 10)]
                 + [H("c20_m1_k%02d" % k, tier="thorough", timeout=2400, mem_gb=24, rules=STORE_RULES, covers=["the fault was injected"]) for k in range(0, 4)]
                 + [H("c20_m1w_k%02d" % k, tier="thorough", timeout=2400, mem_gb=24, rules=STORE_RULES, covers=["the fault was injected"]) for k in (0, 2)]
                 + [H("c20_m2_k%02d" % k, tier="thorough", timeout=2400, mem_gb=24, rules=STORE_RULES) for k in range(0, 16)]
